@@ -31,13 +31,15 @@ package samlsp
 //@ ensures[C16] subject: assertion.Subject != nil && assertion.Subject.NameID != nil ==> sessionClaims(result).Subject == assertion.Subject.NameID.Value
 //@ -- attributes accumulate: every value of every attribute is appended to what its claim name (friendly name, else name)
 //@ -- already holds - repeated attributes lose nothing - and the session index is appended likewise
-//@ assert@store[C16] Attributes[] #1 (k string, v []string) uses claims JWTSessionClaims, attr saml.Attribute appends_value_under_claim_name:
+//@ -- (prev: what the attribute map held under k before the update - whether the map is the claims' field or a local that
+//@ -- becomes it)
+//@ assert@store[C16] Attributes[] #1 (k string, v []string, prev []string) uses attr saml.Attribute appends_value_under_claim_name:
 //@    (attr.FriendlyName != "" ==> k == attr.FriendlyName) && (attr.FriendlyName == "" ==> k == attr.Name) &&
-//@    len(v) == len(claims.Attributes[k])+1 &&
+//@    len(v) == len(prev)+1 &&
 //@    exists(0, len(attr.Values), func(j int) bool { return v[len(v)-1] == attr.Values[j].Value }) &&
-//@    forall(0, len(claims.Attributes[k]), func(j int) bool { return v[j] == claims.Attributes[k][j] })
-//@ assert@store[C16] Attributes[] #2 (k string, v []string) uses claims JWTSessionClaims, authnStatement saml.AuthnStatement appends_session_index:
-//@    k == claimNameSessionIndex && len(v) == len(claims.Attributes[k])+1 && v[len(v)-1] == authnStatement.SessionIndex
+//@    forall(0, len(prev), func(j int) bool { return v[j] == prev[j] })
+//@ assert@store[C16] Attributes[] #2 (k string, v []string, prev []string) uses authnStatement saml.AuthnStatement appends_session_index:
+//@    k == claimNameSessionIndex && len(v) == len(prev)+1 && v[len(v)-1] == authnStatement.SessionIndex
 
 //@ -- a session token is signed with the codec's own method and key, over exactly the given claims
 //@ contract (JWTSessionCodec).Encode
